@@ -175,10 +175,11 @@ impl IndicatorInstance for TrendStrengthIndexInstance {
 		let sma = self.inverted_period * self.sy;
 		let p = (self.wma.next(&src) - sma) * self.sx;
 
-		// sy2 is always greater than sma * sy, so q is always positive
+		// in exact arithmetic sy2 is never less than sma * sy; rounding may leave `q` zero or slightly negative
+		// when the window is (almost) constant, where the correlation is not defined
 		let q = self.k * sma.mul_add(-self.sy, self.sy2);
 
-		let value = p / q.sqrt();
+		let value = if q > 0.0 { p / q.sqrt() } else { 0.0 };
 
 		let cross_signal = self.cross_under.next(&(value, self.cfg.zone))
 			- self.cross_above.next(&(value, -self.cfg.zone));
